@@ -2,6 +2,7 @@ import Anysystem.Proofs.SnapshotThms
 import Anysystem.Props.C13
 import Anysystem.Props.C03
 import Anysystem.Proofs.R4
+import Anysystem.Proofs.R5Main
 /-!
 # C04 — The simulator's own execution is always among the model-checked ones
 
@@ -29,5 +30,16 @@ namespace Anysystem
 /- non-vacuity: a concrete `Sim Nat Ticks` state with a queued timer and message on which all hypotheses hold -/
 #check @R4Demo.demo_hyps
 #check @R4Demo.demo_step
+
+/- **C04 end to end** (partial: fault rates zero, no crash/recover after the snapshot, override-free program (D1), exact time
+   arithmetic (D16), goal/prune only at states without pending events): after k further simulator steps the process-visible
+   state of the simulation is that of a state an `Ok` exploration from the snapshot evaluated.  Chain: `timedRel_snapshot`,
+   `snapshot_sim'`, then per step R4 + R2 completeness, finally R3 + C11 congruence + `key_covers`.  `demo_covered`: every
+   hypothesis discharged on a concrete run (DFS and BFS). -/
+#check @snapshot_sim'
+#check @timedRel_snapshot
+#check @sim_step_matched
+#check @sim_run_covered_partial
+#check @R5MainDemo.demo_covered
 
 end Anysystem
